@@ -9,7 +9,7 @@ import (
 )
 
 func init() {
-	register(&PropCheck{ID: "C17", Pkgs: []string{"./dns", "./cache"}, Run: runC17, KeepCalls: []string{"dns.Resolver.sendQueries", "dns.Resolver.sendQueriesUDP", "dns.Resolver.sendQueriesTCP", "dns.Resolver.doTCP", "dns.resultBuilder.parseMsg", "dns.resultBuilder.isDone"}})
+	register(&PropCheck{ID: "C17", Pkgs: []string{"./dns", "./cache"}, Run: runC17, KeepCalls: []string{"cache.BoundedCache.remove", "cache.BoundedCache.moveToTail", "dns.Resolver.sendQueries", "dns.Resolver.sendQueriesUDP", "dns.Resolver.sendQueriesTCP", "dns.Resolver.doTCP", "dns.resultBuilder.parseMsg", "dns.resultBuilder.isDone"}})
 }
 
 func runC17(p *Prog, r *Report) {
@@ -608,7 +608,7 @@ func c17R4(p *Prog, r *Report) {
 func c17R5(p *Prog, r *Report) {
 	const rule = "C17-R5"
 	r.Rule(rule, "bounded cache, map and list move together: insert evicts through remove(head) on the full edge before it stores, stores the new node under the inserted key and makes it the tail on every path; remove deletes the node's own key from the map on every path and re-links both neighbours (or head / tail) for both the nil and non-nil case; a node taken from the map is used only on the found edge; capacity is made positive at construction")
-	ins := p.Func("cache", "BoundedCache", "insert")
+	ins := p.Inlined(p.Func("cache", "BoundedCache", "insert"))
 	info := ins.Info()
 	recv := ins.RecvObj()
 	// roles of the cache's and the node's fields, from their types and from insert itself, so that
